@@ -210,6 +210,10 @@ func runC07(c *Ctx) {
 			for ln := 0; ln <= 9; ln++ {
 				doc := "[" + strings.TrimSuffix(strings.Repeat(p.elem+",", ln), ",") + "]"
 				follow := "[" + strings.TrimSuffix(strings.Repeat(p.elem+",", ln+3), ",") + "]"
+				// start from an empty pool (two collections: the pool keeps a victim cache), so that the working
+				// array begins at its initial capacity and has to grow
+				runtime.GC()
+				runtime.GC()
 				var inputs [][]byte
 				for cut := 0; cut <= len(doc); cut++ {
 					inputs = append(inputs, []byte(doc[:cut]))
@@ -221,7 +225,11 @@ func runC07(c *Ctx) {
 						inputs = append(inputs, m)
 					}
 				}
-				for _, in := range inputs {
+				for ii, in := range inputs {
+					if ii%8 == 0 {
+						runtime.GC()
+						runtime.GC()
+					}
 					for mode := 0; mode < 3; mode++ {
 						n++
 						dst := p.mk()
